@@ -234,10 +234,22 @@ def enumLunar (spec : Bool) (args : List String) (out : IO.FS.Stream) : IO Unit 
           if di == 0 || di ≥ 29 || r != REFUSED then buf := buf ++ s!"{y} {mm} {d} {r}\n"
       out.putStr buf
 
+/-- S stream for C03: the listing the rule prescribes, every property flag = 1 -/
+def enumTilesSpec (out : IO.FS.Stream) : IO Unit := do
+  forRange 0 9998 fun y => do
+    let mut buf := ""
+    let a := flat.yStart.getD y.toNat 0
+    let b := flat.yStart.getD (y.toNat + 1) 0
+    for k in [a:b] do
+      buf := buf ++ s!"{y} {flat.ms.getD k 0} 1 1 1\n"
+    buf := buf ++ s!"{y} year 1 1 1\n"
+    out.putStr buf
+
 def runEnum (name : String) (args : List String) (out : IO.FS.Stream) : Option (IO Unit) :=
   match name with
   | "c03.grid" => some (enumGrid out)
   | "c03.months" => some (enumMonths out)
+  | "c03.tiles.spec" => some (enumTilesSpec out)
   | "c03.next" => some (enumNext false args out)
   | "c03.next.spec" => some (enumNext true args out)
   | "c02.days" => some (enumDays false args out)
